@@ -79,7 +79,12 @@ class _SortedIterator:
         self._next_value: TNextValue = None
         self._next_key: TNextKey = None
         self._closed = False
-        self.__advance()
+        try:
+            self.__advance()
+        except BaseException:
+            # do not leave the file open when the first record cannot be read
+            self.__close_quietly()
+            raise
 
     def __advance(self) -> None:
         """Gets the next key and value, decoding a record if necessary"""
@@ -127,8 +132,16 @@ class _SortedIterator:
     def close(self) -> None:
         """Closes the underlying temporary file"""
         if not self._closed:
-            self._handle.close()
+            # closed even if closing reports a failure: there is nothing to retry
             self._closed = True
+            self._handle.close()
+
+    def __close_quietly(self) -> None:
+        """Closes the file while another failure is being reported"""
+        try:
+            self.close()
+        except OSError:
+            pass
 
 
 class _MergingIterator:
@@ -144,10 +157,18 @@ class _MergingIterator:
         """
         self._heap: list = []
         self._iterators: List[_SortedIterator] = []
-        for path in paths:
-            s_iter = _SortedIterator(path=path, codec=codec, key_func=key_func)
-            heapq.heappush(self._heap, s_iter)
-            self._iterators.append(s_iter)
+        try:
+            for path in paths:
+                s_iter = _SortedIterator(path=path, codec=codec, key_func=key_func)
+                self._iterators.append(s_iter)
+                heapq.heappush(self._heap, s_iter)
+        except BaseException:
+            # do not leave the files opened so far open
+            try:
+                self.close()
+            except OSError:
+                pass
+            raise
 
     def __iter__(self) -> '_MergingIterator':
         return self
@@ -169,11 +190,19 @@ class _MergingIterator:
         return entry  # type: ignore
 
     def close(self) -> None:
-        """Closes all the underlying iterators"""
+        """Closes all the underlying iterators (all of them, even when closing
+        one of them fails; the first failure is reported at the end)"""
+        first_error: Optional[OSError] = None
         for s_iter in self._iterators:
-            s_iter.close()
+            try:
+                s_iter.close()
+            except OSError as error:
+                if first_error is None:
+                    first_error = error
         self._iterators = []
         self._heap = []
+        if first_error is not None:
+            raise first_error
 
 
 class MafSorterCodec(SorterCodec):
@@ -249,6 +278,7 @@ class Sorter:
         self._fds: list = []
         self._objects_in_memory: int = 0
         self._always_spill: bool = always_spill
+        self._merging_iterators: List[_MergingIterator] = []
 
     def __iadd__(self, obj: Any) -> 'Sorter':
         """Add an object to be sorted"""
@@ -271,8 +301,20 @@ class Sorter:
             m_iter = _MergingIterator(
                 paths=self._paths, codec=self._codec, key_func=self._key_func
             )
-            for record in m_iter:
-                yield record
+            # known to close(): an iteration that is abandoned half-way leaves
+            # its files to close(), which can report a failure to its caller
+            self._merging_iterators.append(m_iter)
+            abandoned = False
+            try:
+                for record in m_iter:
+                    yield record
+            except GeneratorExit:
+                abandoned = True
+                raise
+            finally:
+                if not abandoned:
+                    self._merging_iterators.remove(m_iter)
+                    m_iter.close()
         else:
             self.__sort_stash()
 
@@ -295,30 +337,62 @@ class Sorter:
         """Spills all the objects to disk"""
         if self._objects_in_memory > 0:
             desc, path = tempfile.mkstemp(".gz", dir=self._tmp_dir)
-            # TODO: delete on exit!
-
-            handle = gzip.open(path, "wb")
-            self.__sort_stash()
-            for i in range(self._objects_in_memory):
-                entry = self._stash[i]
-                data = entry.data
-                handle.write(struct.pack('i', len(data)))
-                handle.write(memoryview(data))
-                self._stash[i] = None
-            handle.close()
+            # remember the file straight away, so that close() removes it
+            # whatever happens while it is being written
             self._paths.append(path)
             self._fds.append(desc)
+
+            handle = gzip.open(path, "wb")
+            try:
+                self.__sort_stash()
+                for i in range(self._objects_in_memory):
+                    entry = self._stash[i]
+                    data = entry.data
+                    handle.write(struct.pack('i', len(data)))
+                    handle.write(memoryview(data))
+            except BaseException:
+                try:
+                    handle.close()
+                except OSError:
+                    pass
+                raise
+            handle.close()
+            for i in range(self._objects_in_memory):
+                self._stash[i] = None
             self._objects_in_memory = 0
 
     def close(self) -> None:
-        """Closes all temporary files."""
-        for path, desc in zip(self._paths, self._fds):
+        """Closes and removes all temporary files.  Every file is dealt with
+        even when one of them fails (the first failure is reported at the
+        end), and calling it again is harmless: it only retries what could
+        not be removed."""
+        first_error: Optional[OSError] = None
+        for m_iter in self._merging_iterators:
             try:
-                os.close(desc)
+                m_iter.close()
+            except OSError as error:
+                if first_error is None:
+                    first_error = error
+        self._merging_iterators = []
+        remaining_paths: list = []
+        for path, desc in zip(self._paths, self._fds):
+            if desc is not None:
+                try:
+                    os.close(desc)
+                except OSError as error:
+                    if error.errno != errno.EBADF and first_error is None:
+                        first_error = error
+            try:
                 os.remove(path)
-            except OSError as exception:
-                if exception.errno != errno.ENOENT:
-                    raise exception
+            except OSError as error:
+                if error.errno != errno.ENOENT:
+                    if first_error is None:
+                        first_error = error
+                    remaining_paths.append(path)  # try again next time
+        self._paths = remaining_paths
+        self._fds = [None] * len(remaining_paths)
+        if first_error is not None:
+            raise first_error
 
 
 class MafSorter(Sorter):
